@@ -142,9 +142,9 @@ def c01_replay(params, tier):
 @family("C02", "C12", "C11")
 def c02_fanout(params, tier):
     if params is None:
-        return [{"n": n, "adder_sub": a, "order": o, "usage": u, "bad": bad}
+        return [{"n": n, "adder_sub": a, "order": o, "usage": u, "bad": bad, "ghost": g}
                 for n in (1, 2, 4) for a in (0, 1) for o in ("plain", "restart-bind-sweep-open", "bind-sweep-open", "sweeps-between")
-                for u in (0, 1) for bad in (0, 1, 2)]
+                for u in (0, 1) for (bad, g) in ((0, 0), (1, 0), (2, 0), (0, 1), (0, 2))]
     p = params
     b = HB()
     b.tag = "c02"
@@ -166,6 +166,14 @@ def c02_fanout(params, tier):
     adder = b.conn("app", "s2")
     other = b.conn("app2", "s1")
     b.send(other, type="open", mailbox="mZ.1")
+    for i in range(p.get("ghost", 0)):
+        # further connections of the same sides (and apps) come and go while the others stay bound: whatever the server
+        # counts per app, side or connection must still know that the others are there
+        for side in ("s1", "s2"):
+            g = b.conn("app", side)
+            if i:
+                b.send(g, type="list")
+            b.drop(g)
     if p["order"] in ("restart-bind-sweep-open", "bind-sweep-open"):
         b.adv(300)
     for c in subs:
